@@ -1,8 +1,10 @@
 (* Property C02 — keys, uniqueness, checks and foreign keys land on the right columns (output-layer part). *)
 From Coq Require Import String Ascii List ZArith NArith Bool.
-From SDP Require Import Base PyStr Lexer Actions Parse Engine Seq Entity Output OutputProofs Table TableProofs TableOutProofs.
+From SDP Require Import Base PyStr Lexer Actions Parse Engine Seq Entity Output OutputProofs Table TableProofs TableOutProofs TableItemProofs.
 Import ListNotations.
 Open Scope string_scope.
+Definition pyval_eqb_opt (r : res (option pyval)) (v : pyval) : bool :=
+  match r with Ok (Some x) => pyval_eqb x v | _ => false end.
 
 (* columns that only take part in a multi-column UNIQUE (k >= 2, any k) are never flagged individually: the table-level
    unique statement leaves every column unchanged *)
@@ -60,6 +62,57 @@ Theorem C02_column_entry_fields : forall pk x, exists d, final_col pk x = PDict 
   dict_get d "references" = Some (cs_refs (cd_cs x)) /\ dict_has d "primary_key" = false.
 Proof. exact final_col_fields. Qed.
 Print Assumptions C02_column_entry_fields.
+
+(* ---------- table-level clauses: the grammar side, any number of clauses, column lists of any length --------------------------
+   For EVERY statement  CREATE TABLE [s.]t ( columns , clause {, clause} )  where the columns are those of the core fragment and
+     clause = [CONSTRAINT n] PRIMARY KEY (c {, c}) | [CONSTRAINT n] UNIQUE (c {, c})
+            | [CONSTRAINT n] FOREIGN KEY (c {, c}) REFERENCES [s.]t (c {, c}) [ON DELETE a] [ON UPDATE a]
+   the model (real keyword tables + flag logic, real LALR tables — 244-configuration closed invariant —, modelled actions) returns
+   the entity [denote_c]: the column entity of C01 to which p_expression_table's clause function (Model/Actions.act_expr_table_item,
+   tied to the code by correspondence) has been applied once per clause, in declaration order, with exactly the declared
+   values [titem_values]: the constraint name if any, the exact column list and, for a foreign key, the referenced schema /
+   table / column list and the ON DELETE / ON UPDATE actions as written.  [wf_c] asks for plain words as names, for [denote_c]
+   to be defined (e.g. a foreign key does not reference fewer columns than it has) and for the finished entity to pass the test
+   the closing production makes. *)
+Theorem C02_table_clauses_exact : forall tc norm silent i r, tc_items tc = i :: r -> wf_c norm tc = true ->
+  exists d, denote_c norm tc = Ok d /\ parse_lexemes norm silent (lexemes_c tc) = Ok (Some (PDict d)).
+Proof. exact table_c_parse. Qed.
+Print Assumptions C02_table_clauses_exact.
+
+Definition ex_tc : tablec :=
+  mkTableC (mkTable "CREATE" "table" None "orders"
+              (mkCol "id" "int" None None [ONull (NNot "NOT" "NULL")])
+              [mkCol "customer" "int" None None []; mkCol "region" "int" None None []; mkCol "code" "varchar" None (Some ("10", None)) []])
+           [TIPk None "PRIMARY" "key" ("id", []);
+            TIUq (Some ("CONSTRAINT", "uq_cr")) "unique" ("customer", ["region"]);
+            TIUq None "UNIQUE" ("code", []);
+            TIFk (Some ("constraint", "fk_c")) "FOREIGN" "KEY" ("customer", ["region"])
+                 (mkTFk "REFERENCES" (Some "crm") "customers" ("id", ["region_id"]) (Some ("ON", "DELETE", "cascade")) None)].
+Definition ex_tc_text : string :=
+  "CREATE table orders ( id int NOT NULL , customer int , region int , code varchar ( 10 ) , PRIMARY key ( id ) , CONSTRAINT uq_cr unique ( customer , region ) , UNIQUE ( code ) , constraint fk_c FOREIGN KEY ( customer , region ) REFERENCES crm.customers ( id , region_id ) ON DELETE cascade ) ".
+(* the example through parser stage AND output stage: key exact, key column non-nullable, only the single-column UNIQUE flags its
+   column, the named constraints are reported under their names with their exact column lists *)
+Example C02_clauses_example :
+  wf_c false ex_tc = true /\ scan ex_tc_text = Ok (lexemes_c ex_tc) /\
+  match denote_c false ex_tc with
+  | Ok d =>
+      pyval_eqb_opt (parse_statement false false ex_tc_text) (PDict d) &&
+      match Output.format "sql" false [PDict d] with
+      | Ok (PList [PDict t]) =>
+          pyval_eqb (get_or_none t "primary_key") (PList [PStr "id"]) &&
+          match get_or_none t "columns" with
+          | PList [PDict a; PDict b; PDict c; PDict e] =>
+              pyval_eqb (get_or_none a "nullable") (PBool false) && pyval_eqb (get_or_none e "unique") (PBool true)
+              && pyval_eqb (get_or_none b "unique") (PBool false) && pyval_eqb (get_or_none c "unique") (PBool false)
+          | _ => false end &&
+          match get_or_none t "constraints" with
+          | PDict cs => pyval_eqb (get_or_none cs "uniques")
+                                  (PList [PDict [("columns", PList [PStr "customer"; PStr "region"]); ("constraint_name", PStr "uq_cr")]])
+          | _ => false end
+      | _ => false end
+  | _ => false
+  end = true.
+Proof. vm_compute. repeat split. Qed.
 
 (* non-vacuity / the whole pipeline of the output layer on a table with every kind of key declaration:
    inline PK + named multi-column unique + unnamed single unique: pk exact, pk columns non-nullable,
